@@ -174,7 +174,7 @@ def _config(ck, n, conn, tier, known_by_cfg, gate_tab, full_fixpoint):
                     steps[d] = dict(c=c, edge=r["edge"], L=r["L"], M=r["Mlayer"])
                     changed = True
         ck.count("one-step:" + cfg, n_queries=sum(verd.values()), solver_s=tsum, obligations=verd["unsat"] + verd["sat"],
-                 discharged=verd["unsat"], verdicts=verd, sig=["%s:%d:%d" % (cfg, sweeps, c) for c in todo])
+                 discharged=verd["unsat"], verdicts=verd, paths=sum(verd.values()), sig=["%s:%d:%d" % (cfg, sweeps, c) for c in todo])
         if not changed:
             break
         if sweeps > 40:
